@@ -120,9 +120,10 @@ Lemma rune_starts_from_nth : forall fuel l pos r, length l <= fuel ->
   nth r (Utf8.rune_starts_from fuel pos l ++ [pos + length l]) 0 = pos + runes_bytes l r.
 Proof.
   induction fuel as [|f IH]; intros l pos r Hf Hr.
-  - destruct l; [|simpl in Hf; lia]. simpl in *. assert (r = 0) by lia. subst. simpl. lia.
+  - destruct l; [|simpl in Hf; lia]. simpl in Hr. assert (r = 0) by lia. subst r.
+    rewrite runes_bytes_0. reflexivity.
   - destruct l as [|b0 t].
-    + simpl in *. assert (r = 0) by lia. subst. simpl. lia.
+    + simpl in Hr. assert (r = 0) by lia. subst r. rewrite runes_bytes_0. reflexivity.
     + set (l := b0 :: t) in *.
       change (Utf8.rune_starts_from (S f) pos l)
         with (pos :: Utf8.rune_starts_from f (pos + Utf8.width l) (skipn (Utf8.width l) l)) in *.
@@ -131,7 +132,8 @@ Proof.
       pose proof (Utf8.width_pos l ltac:(discriminate)) as H1. pose proof (Utf8.width_le l) as H2.
       replace (pos + length l) with (pos + Utf8.width l + length (skipn (Utf8.width l) l))
         by (rewrite skipn_length; lia).
-      rewrite IH; [|rewrite skipn_length; subst l; simpl in *; lia|lia].
+      assert (Hll : length l = S (length t)) by reflexivity.
+      rewrite IH; [|rewrite skipn_length; lia|lia].
       rewrite runes_bytes_step by discriminate. lia.
 Qed.
 
@@ -175,4 +177,350 @@ Proof.
   pose proof (rune_starts_from_nth (length l) l 0 r (le_n _) ltac:(unfold Utf8.rune_starts in Hr; lia)) as H.
   simpl in H. fold (Utf8.rune_starts l) in H. rewrite app_nth1 in H by exact Hr.
   rewrite <- H. apply nth_error_nth'. exact Hr.
+Qed.
+
+(** ---- the builder's sampling: one sample per [freq] runes of the corpus-global rune index *)
+Section Sampling.
+Variable freq : nat.
+Hypothesis Hfreq : 0 < freq.
+
+(** the elements of [l] whose global index (idx, idx+1, ...) is a multiple of freq *)
+Fixpoint pick (idx : nat) (l : list nat) : list nat :=
+  match l with
+  | [] => []
+  | x :: t => (if idx mod freq =? 0 then [x] else []) ++ pick (S idx) t
+  end.
+
+Lemma pick_app : forall a b idx, pick idx (a ++ b) = pick idx a ++ pick (idx + length a) b.
+Proof.
+  induction a as [|x a IH]; intros b idx; simpl.
+  - now rewrite Nat.add_0_r.
+  - rewrite IH, app_assoc. replace (S idx + length a) with (idx + S (length a)) by lia. reflexivity.
+Qed.
+
+Lemma mod_qm : forall q m, m < freq -> (q * freq + m) mod freq = m.
+Proof. intros q m H. rewrite Nat.add_comm, Nat.mod_add by lia. now apply Nat.mod_small. Qed.
+
+Lemma nth_error_nil : forall {A} k, @nth_error A [] k = None.
+Proof. intros A k. now destruct k. Qed.
+
+(** sample k of a list walked from global index q*freq+m is the element at distance (-m mod freq) + k*freq *)
+Lemma pick_nth : forall l q m k, m < freq ->
+  nth_error (pick (q * freq + m) l) k = nth_error l ((if m =? 0 then 0 else freq - m) + k * freq).
+Proof.
+  induction l as [|x t IH]; intros q m k Hm.
+  - cbn [pick]. now rewrite !nth_error_nil.
+  - cbn [pick]. rewrite mod_qm by exact Hm.
+    destruct (m =? 0) eqn:Em.
+    + apply Nat.eqb_eq in Em. subst m. cbn [app].
+      destruct k as [|k']; [reflexivity|]. cbn [nth_error Nat.add].
+      destruct (Nat.eq_dec freq 1) as [F1|F1].
+      * replace (S (q * freq + 0)) with (S q * freq + 0) by nia.
+        rewrite IH by lia. cbn [Nat.eqb].
+        replace (S k' * freq) with (S (0 + k' * freq)) by nia. reflexivity.
+      * replace (S (q * freq + 0)) with (q * freq + 1) by lia.
+        rewrite IH by lia. cbn [Nat.eqb].
+        replace (S k' * freq) with (S (freq - 1 + k' * freq)) by nia. reflexivity.
+    + apply Nat.eqb_neq in Em. cbn [app].
+      destruct (Nat.eq_dec (S m) freq) as [F1|F1].
+      * replace (S (q * freq + m)) with (S q * freq + 0) by nia.
+        rewrite IH by lia. cbn [Nat.eqb].
+        replace (freq - m + k * freq) with (S (0 + k * freq)) by nia. reflexivity.
+      * replace (S (q * freq + m)) with (q * freq + S m) by lia.
+        rewrite IH by lia. cbn [Nat.eqb].
+        replace (freq - m + k * freq) with (S (freq - S m + k * freq)) by nia. reflexivity.
+Qed.
+
+Corollary pick_nth0 : forall l k, nth_error (pick 0 l) k = nth_error l (k * freq).
+Proof. intros l k. apply (pick_nth l 0 0 k Hfreq). Qed.
+
+(** sample_doc without the skip counter *)
+Lemma sample_doc_skip : forall data skip idx off, skip <= length data ->
+  sample_doc freq data skip idx off = sample_doc freq (skipn skip data) 0 idx (off + skip).
+Proof.
+  induction data as [|b0 r IH]; intros skip idx off H; simpl in H.
+  - assert (skip = 0) by lia. subst. reflexivity.
+  - destruct skip as [|k]; [simpl skipn; now rewrite Nat.add_0_r|].
+    cbn [sample_doc skipn]. rewrite IH by lia. now replace (S off + k) with (off + S k) by lia.
+Qed.
+
+Lemma sample_doc_step : forall l idx off, l <> [] ->
+  sample_doc freq l 0 idx off =
+  let '(s, n) := sample_doc freq (skipn (Utf8.width l) l) 0 (S idx) (off + Utf8.width l) in
+  ((if idx mod freq =? 0 then [off] else []) ++ s, n).
+Proof.
+  intros l idx off Hl. destruct l as [|b0 r]; [congruence|].
+  pose proof (Utf8.width_pos (b0 :: r) Hl) as H1. pose proof (Utf8.width_le (b0 :: r)) as H2.
+  rewrite <- rune_width_utf8 in *. simpl in H2. cbn [sample_doc].
+  rewrite sample_doc_skip by lia.
+  destruct (rune_width b0 r) as [|w] eqn:E; [lia|].
+  simpl skipn. rewrite Nat.sub_0_r. now replace (S off + (S w - 1)) with (off + S w) by lia.
+Qed.
+
+Lemma sample_doc_spec : forall fuel l idx off, length l <= fuel ->
+  sample_doc freq l 0 idx off =
+  (pick idx (Utf8.rune_starts_from fuel off l), idx + length (Utf8.rune_starts_from fuel off l)).
+Proof.
+  induction fuel as [|f IH]; intros l idx off Hf.
+  - destruct l; [|simpl in Hf; lia]. simpl. now rewrite Nat.add_0_r.
+  - destruct l as [|b0 t]; [simpl; now rewrite Nat.add_0_r|].
+    set (l := b0 :: t) in *.
+    rewrite sample_doc_step by discriminate.
+    change (Utf8.rune_starts_from (S f) off l)
+      with (off :: Utf8.rune_starts_from f (off + Utf8.width l) (skipn (Utf8.width l) l)).
+    pose proof (Utf8.width_pos l ltac:(discriminate)) as H1.
+    assert (Hll : length l = S (length t)) by reflexivity.
+    rewrite IH by (rewrite skipn_length; lia).
+    cbn [pick length]. f_equal. lia.
+Qed.
+
+(** ---- the corpus: global list of rune start offsets, total rune / byte counts *)
+Fixpoint starts_g (docs : list (list N)) (eb : nat) : list nat :=
+  match docs with
+  | [] => []
+  | d :: r => map (Nat.add eb) (Utf8.rune_starts d) ++ starts_g r (eb + length d)
+  end.
+Fixpoint total_runes (docs : list (list N)) : nat :=
+  match docs with [] => 0 | d :: r => Utf8.rune_count d + total_runes r end.
+
+Lemma sample_corpus_cons : forall d r rc eb,
+  sample_corpus freq (d :: r) rc eb =
+  let K := sample_corpus freq r (rc + Utf8.rune_count d) (eb + length d) in
+  {| k_samples := pick rc (map (Nat.add eb) (Utf8.rune_starts d)) ++ k_samples K;
+     k_end_runes := (rc + Utf8.rune_count d) :: k_end_runes K;
+     k_bounds := eb :: k_bounds K |}.
+Proof.
+  intros d r rc eb. cbn [sample_corpus].
+  rewrite (sample_doc_spec (length d) d rc eb (le_n _)).
+  rewrite rune_starts_from_shift. fold (Utf8.rune_starts d).
+  rewrite map_length, rune_starts_length. reflexivity.
+Qed.
+
+Lemma corpus_samples : forall docs rc eb,
+  k_samples (sample_corpus freq docs rc eb) = pick rc (starts_g docs eb).
+Proof.
+  induction docs as [|d r IH]; intros rc eb; [reflexivity|].
+  rewrite sample_corpus_cons. cbn [k_samples starts_g].
+  rewrite IH, pick_app, map_length, rune_starts_length. reflexivity.
+Qed.
+
+Lemma corpus_bounds_head : forall docs rc eb, nth_error (k_bounds (sample_corpus freq docs rc eb)) 0 = Some eb.
+Proof. intros [|d r] rc eb; [reflexivity|]. now rewrite sample_corpus_cons. Qed.
+
+Lemma corpus_bounds_nth : forall pre post rc eb i,
+  nth_error (k_bounds (sample_corpus freq (pre ++ post) rc eb)) (length pre + i) =
+  nth_error (k_bounds (sample_corpus freq post (rc + total_runes pre) (eb + length (concat pre)))) i.
+Proof.
+  induction pre as [|a pre IH]; intros post rc eb i.
+  - simpl. now rewrite !Nat.add_0_r.
+  - cbn [app length Nat.add]. rewrite sample_corpus_cons. cbn [k_bounds nth_error].
+    rewrite IH. cbn [total_runes concat]. rewrite app_length, !Nat.add_assoc. reflexivity.
+Qed.
+
+Lemma corpus_end_runes_last : forall pre post rc eb, pre <> [] ->
+  nth_error (k_end_runes (sample_corpus freq (pre ++ post) rc eb)) (length pre - 1) = Some (rc + total_runes pre).
+Proof.
+  induction pre as [|a pre IH]; intros post rc eb Hne; [congruence|].
+  cbn [app]. rewrite sample_corpus_cons. cbn [k_end_runes length total_runes].
+  destruct pre as [|b p'].
+  - simpl. now rewrite Nat.add_0_r.
+  - replace (S (length (b :: p')) - 1) with (S (length (b :: p') - 1)) by (simpl; lia).
+    cbn [nth_error]. rewrite IH by discriminate. now rewrite Nat.add_assoc.
+Qed.
+
+Lemma starts_g_nth : forall pre doc post eb r, r < Utf8.rune_count doc ->
+  nth_error (starts_g (pre ++ doc :: post) eb) (total_runes pre + r) =
+  Some (eb + length (concat pre) + runes_bytes doc r).
+Proof.
+  induction pre as [|a pre IH]; intros doc post eb r Hr.
+  - cbn [app starts_g total_runes concat length Nat.add]. rewrite nth_error_app1 by (now rewrite map_length, rune_starts_length).
+    rewrite nth_error_map, rune_starts_nth_error by exact Hr. simpl. f_equal. lia.
+  - cbn [app starts_g total_runes concat]. rewrite nth_error_app2 by (rewrite map_length, rune_starts_length; lia).
+    rewrite map_length, rune_starts_length.
+    replace (Utf8.rune_count a + total_runes pre + r - Utf8.rune_count a) with (total_runes pre + r) by lia.
+    rewrite IH by exact Hr. rewrite app_length. f_equal. lia.
+Qed.
+
+End Sampling.
+
+(** ---- findOffset *)
+Section FindOffset.
+Variable freq : nat.
+Hypothesis Hfreq : 0 < freq.
+
+Lemma slice_mid : forall (pre doc rest : list N) o sz, o + sz <= length doc ->
+  slice (pre ++ doc ++ rest) (length pre + o) (length pre + o + sz) = firstn sz (skipn o doc).
+Proof.
+  intros pre doc rest o sz H. unfold slice.
+  replace (length pre + o + sz - (length pre + o)) with sz by lia.
+  rewrite skipn_app. replace (length pre + o - length pre) with o by lia.
+  rewrite (skipn_all2 pre) by lia. cbn [app].
+  rewrite skipn_app, firstn_app, skipn_length.
+  replace (sz - (length doc - o)) with 0 by lia. now rewrite firstn_O, app_nil_r.
+Qed.
+
+Lemma firstn_min_length : forall {A} (x : list A) w, firstn (Nat.min w (length x)) x = firstn w x.
+Proof.
+  intros A x w. destruct (Nat.le_gt_cases w (length x)) as [H|H].
+  - now rewrite Nat.min_l by exact H.
+  - rewrite Nat.min_r by lia. rewrite firstn_all, firstn_all2 by lia. reflexivity.
+Qed.
+
+Definition window_ok (window : option nat) : Prop :=
+  match window with Some w => 4 * freq <= w | None => True end.
+
+(** the read (window clipped to the document / rest of the file-name blob) and the decode loop, started at the
+    r0-th rune boundary of the document, for n < freq further runes *)
+Lemma decode_tail : forall window (pb doc rest : list N) r0 n,
+  window_ok window -> n < freq ->
+  let all := pb ++ doc ++ rest in
+  let start := length pb in
+  let fend := start + length doc in
+  let byte_off := start + runes_bytes doc r0 in
+  (do data <- (match window with
+               | Some w =>
+                   let sz := if fend <? byte_off then w else Nat.min w (fend - byte_off) in
+                   if byte_off + sz <=? length all then Ok (slice all byte_off (byte_off + sz)) else Err 1%N
+               | None => go_slice all byte_off fend
+               end);
+   Ok (byte_off + runes_bytes data n - start)) = Ok (runes_bytes doc (r0 + n)).
+Proof.
+  intros window pb doc rest r0 n Hw Hn all start fend byte_off.
+  pose proof (runes_bytes_le r0 doc) as Ho. set (o := runes_bytes doc r0) in *.
+  assert (Hall : length all = start + length doc + length rest).
+  { unfold all, start. rewrite !app_length. lia. }
+  assert (Hres : forall data, runes_bytes data n = runes_bytes (skipn o doc) n ->
+            Ok (byte_off + runes_bytes data n - start) = Ok (runes_bytes doc (r0 + n))).
+  { intros data E. rewrite E, runes_bytes_add. fold o. f_equal. unfold byte_off. lia. }
+  destruct window as [w|]; simpl in Hw.
+  - cbv zeta. replace (fend <? byte_off) with false by (symmetry; apply Nat.ltb_ge; unfold fend, byte_off; lia).
+    replace (fend - byte_off) with (length doc - o) by (unfold fend, byte_off; lia).
+    set (sz := Nat.min w (length doc - o)).
+    replace (byte_off + sz <=? length all) with true by (symmetry; apply Nat.leb_le; unfold byte_off; lia).
+    cbn [obind]. apply Hres.
+    unfold all, byte_off, start. rewrite slice_mid by lia.
+    unfold sz. rewrite <- (skipn_length o doc), firstn_min_length.
+    apply runes_bytes_window. lia.
+  - unfold go_slice.
+    replace ((byte_off <=? fend) && (fend <=? length all)) with true
+      by (symmetry; apply andb_true_iff; split; apply Nat.leb_le; unfold fend, byte_off; lia).
+    cbn [obind]. apply Hres. f_equal.
+    replace fend with (start + o + (length doc - o)) by (unfold fend; lia).
+    unfold all, byte_off, start. rewrite slice_mid by lia.
+    rewrite <- (skipn_length o doc). apply firstn_all.
+Qed.
+
+Lemma rune_starts_from_le : forall fuel l pos, length (Utf8.rune_starts_from fuel pos l) <= length l.
+Proof.
+  induction fuel as [|f IH]; intros l pos; [simpl; lia|].
+  destruct l as [|b0 t]; [simpl; lia|]. set (l := b0 :: t).
+  change (Utf8.rune_starts_from (S f) pos l)
+    with (pos :: Utf8.rune_starts_from f (pos + Utf8.width l) (skipn (Utf8.width l) l)).
+  pose proof (Utf8.width_pos l ltac:(discriminate)) as H1. pose proof (Utf8.width_le l) as H2.
+  specialize (IH (skipn (Utf8.width l) l) (pos + Utf8.width l)). rewrite skipn_length in IH.
+  cbn [length] in *. fold l in IH. assert (Hll : length l = S (length t)) by reflexivity. lia.
+Qed.
+Lemma rune_count_le : forall l, Utf8.rune_count l <= length l.
+Proof. intros l. rewrite <- rune_starts_length. apply rune_starts_from_le. Qed.
+
+(** FULL theorem (model level): for every corpus [pre ++ doc :: post] indexed by one builder, every byte tail after the
+    content section, the content read window (>= UTFMax*freq bytes) or the in-memory file-name blob, and every
+    rune offset r inside the document: findOffset = byte length of the first r runes of the document. *)
+Theorem find_offset_full : forall window plain pre doc post tail r,
+  window_ok window ->
+  (plain = true -> forallb (fun b => (b <? 128)%N) doc = true) ->
+  r < Utf8.rune_count doc ->
+  find_offset_corpus freq window plain (pre ++ doc :: post) tail (length pre) r = Ok (runes_bytes doc r).
+Proof.
+  intros window plain pre doc post tail r Hw Hplain Hr.
+  unfold find_offset_corpus, find_offset.
+  destruct plain.
+  { rewrite runes_bytes_ascii; auto. pose proof (rune_count_le doc). lia. }
+  set (docs := pre ++ doc :: post). set (K := sample_corpus freq docs 0 0).
+  (* base, start, end of the document *)
+  assert (Hbase : (match length pre with
+                   | 0 => Ok 0
+                   | S j => match nth_error (k_end_runes K) j with Some x => Ok x | None => Panic 3%N end
+                   end) = Ok (total_runes pre)).
+  { destruct pre as [|a p']; [reflexivity|].
+    pose proof (corpus_end_runes_last freq Hfreq (a :: p') (doc :: post) 0 0 ltac:(discriminate)) as H.
+    fold docs K in H. cbn [length] in *. replace (S (length p') - 1) with (length p') in H by lia.
+    now rewrite H. }
+  rewrite Hbase. cbn [obind].
+  assert (Hstart : nth_error (k_bounds K) (length pre) = Some (length (concat pre))).
+  { pose proof (corpus_bounds_nth freq Hfreq pre (doc :: post) 0 0 0) as H. fold docs K in H.
+    rewrite Nat.add_0_r in H. rewrite H. now rewrite corpus_bounds_head. }
+  rewrite Hstart. cbn [obind].
+  assert (Hend : nth_error (k_bounds K) (S (length pre)) = Some (length (concat pre) + length doc)).
+  { pose proof (corpus_bounds_nth freq Hfreq pre (doc :: post) 0 0 1) as H. fold docs K in H.
+    replace (S (length pre)) with (length pre + 1) by lia. rewrite H.
+    rewrite (sample_corpus_cons freq Hfreq). cbn [k_bounds].
+    change (nth_error (?a :: ?l) 1) with (nth_error l 0). rewrite corpus_bounds_head. f_equal. lia. }
+  rewrite Hend. cbn [obind].
+  (* the sample *)
+  set (R := r + total_runes pre). set (kk := R / freq). set (left := R mod freq).
+  assert (HR : R = kk * freq + left) by (unfold kk, left; rewrite Nat.mul_comm; apply Nat.div_mod; lia).
+  assert (Hleft : left < freq) by (apply Nat.mod_upper_bound; lia).
+  set (G := starts_g docs 0).
+  assert (Hsamp : k_samples K = pick freq 0 G) by (unfold K, G; apply corpus_samples; exact Hfreq).
+  assert (HG : forall r', r' < Utf8.rune_count doc ->
+             nth_error G (total_runes pre + r') = Some (length (concat pre) + runes_bytes doc r')).
+  { intros r' Hr'. unfold G, docs. now rewrite (starts_g_nth freq Hfreq) by exact Hr'. }
+  assert (HGlen : R < length G).
+  { apply nth_error_Some. unfold R. rewrite Nat.add_comm, HG by exact Hr. discriminate. }
+  destruct (nth_error G (kk * freq)) as [v|] eqn:Ev; [|apply nth_error_None in Ev; lia].
+  assert (Hpk : nth_error (pick freq 0 G) kk = Some v) by (rewrite (pick_nth0 freq Hfreq); exact Ev).
+  assert (Hkk : kk < length (k_samples K)) by (rewrite Hsamp; apply nth_error_Some; rewrite Hpk; discriminate).
+  rewrite HR, (lookup_make_map freq Hfreq) by assumption.
+  rewrite Hsamp, (nth_error_nth _ _ 0 Hpk).
+  (* restart at the document start when the sample lies in an earlier document *)
+  set (all := concat docs ++ tail).
+  assert (Eall : all = concat pre ++ doc ++ (concat post ++ tail)).
+  { unfold all, docs. rewrite concat_app. cbn [concat]. now rewrite <- !app_assoc. }
+  destruct (r <? left) eqn:Elt.
+  - apply Nat.ltb_lt in Elt.
+    pose proof (decode_tail window (concat pre) doc (concat post ++ tail) 0 r Hw ltac:(lia)) as H.
+    cbv zeta in H. rewrite runes_bytes_0, Nat.add_0_r in H. rewrite <- Eall in H. exact H.
+  - apply Nat.ltb_ge in Elt.
+    assert (Ev' : v = length (concat pre) + runes_bytes doc (r - left)).
+    { assert (E : kk * freq = total_runes pre + (r - left)) by (unfold R in HR; lia).
+      rewrite E, HG in Ev by lia. congruence. }
+    pose proof (decode_tail window (concat pre) doc (concat post ++ tail) (r - left) left Hw Hleft) as H.
+    cbv zeta in H. rewrite <- Eall, <- Ev' in H. replace (r - left + left) with r in H by lia. exact H.
+Qed.
+
+End FindOffset.
+
+(** ---- instantiation with the constants of the tree under test (Generated/RangesConsts.v: runeOffsetFrequency and the
+    factor of findOffset's read window, both regenerated from the source on every run) *)
+From ZV Require Import Generated.RangesConsts.
+
+Theorem find_offset_repo : forall (filename : bool) plain pre doc post tail r,
+  (plain = true -> forallb (fun b => (b <? 128)%N) doc = true) ->
+  r < Utf8.rune_count doc ->
+  find_offset_corpus rune_offset_frequency (if filename then @None nat else content_window) plain
+    (pre ++ doc :: post) tail (length pre) r
+  = Ok (nth r (Utf8.rune_boundaries doc) 0).
+Proof.
+  intros filename plain pre doc post tail r Hp Hr.
+  assert (Hf : 0 < rune_offset_frequency) by (unfold rune_offset_frequency; lia).
+  rewrite (find_offset_full rune_offset_frequency Hf); auto.
+  - f_equal. apply runes_bytes_boundary. lia.
+  - destruct filename; simpl; [exact I|].
+    unfold find_offset_window_factor, rune_offset_frequency. lia.
+Qed.
+
+(** the translated offset is a rune boundary of Go's decoding of the document, at most its length *)
+Corollary find_offset_repo_boundary : forall (filename : bool) plain pre doc post tail r,
+  (plain = true -> forallb (fun b => (b <? 128)%N) doc = true) ->
+  r < Utf8.rune_count doc ->
+  exists b, find_offset_corpus rune_offset_frequency (if filename then @None nat else content_window) plain
+              (pre ++ doc :: post) tail (length pre) r = Ok b /\ Utf8.RB doc b /\ b < length doc.
+Proof.
+  intros filename plain pre doc post tail r Hp Hr.
+  rewrite find_offset_repo by assumption. eexists. split; [reflexivity|].
+  rewrite <- rune_starts_length in Hr.
+  assert (E : nth r (Utf8.rune_boundaries doc) 0 = nth r (Utf8.rune_starts doc) 0)
+    by (unfold Utf8.rune_boundaries; now rewrite app_nth1).
+  rewrite E. apply Utf8.rune_starts_spec. now apply nth_In.
 Qed.
